@@ -4,6 +4,7 @@
 #include <universal/number/cfloat/cfloat.hpp>
 #include <universal/number/fixpnt/fixpnt.hpp>
 #include <universal/number/integer/integer.hpp>
+#include <universal/number/lns/lns.hpp>
 #include <universal/adapters/adapt_integer_and_posit.hpp>
 #include "drvkit.hpp"
 #include "posit_gen.hpp"
@@ -85,9 +86,23 @@ struct IP : Runner {
 	}
 };
 
+template <unsigned N1, unsigned R1, unsigned N2, unsigned R2, Behavior B>
+struct LL : Runner {
+	LL() { fam = FAM_lns; nbits = N1; small = (N1 <= 12); ops1 = {OP_conv};
+		auto c = [](unsigned n, unsigned r) { return std::to_string(n) + "," + std::to_string(r) + "," + (B == Behavior::Saturating ? "1" : "0") + ",8"; };
+		cfg = c(N1, R1) + "," + c(N2, R2); }
+	std::string run(int op, const std::vector<std::string>& a) override {
+		return guarded([&]() -> std::string {
+			using A = lns<N1, R1, uint8_t, B>; using T = lns<N2, R2, uint8_t, B>;
+			A x = mk_bits<A>(a[0], N1);
+			T y(x);
+			return out_bits(y, N2); });
+	}
+};
 template <class R> static void reg() { g_runners.emplace_back(new R()); }
 #define PPAIR(a, b, c, d) reg<PP<a, b, c, d>>(); reg<PP<c, d, a, b>>();
 #define FPAIR(a, b, c, d) reg<FF<a, b, c, d, Modulo>>(); reg<FF<c, d, a, b, Modulo>>(); reg<FF<a, b, c, d, Saturate>>(); reg<FF<c, d, a, b, Saturate>>();
+#define LPAIR(a, b, c, d) reg<LL<a, b, c, d, Behavior::Saturating>>(); reg<LL<c, d, a, b, Behavior::Saturating>>(); reg<LL<a, b, c, d, Behavior::Wrapping>>(); reg<LL<c, d, a, b, Behavior::Wrapping>>();
 #define IPAIR(a, b) reg<II<a, uint8_t, b>>(); reg<II<b, uint8_t, a>>();
 #define IPAIRB(a, b, BT) reg<II<a, BT, b>>(); reg<II<b, BT, a>>();
 
@@ -113,6 +128,7 @@ int main(int argc, char** argv) {
 	reg<CC<32,8,true,false,false, 64,11,true,false,false>>(); reg<CC<28,9,true,false,false, 28,6,true,true,false>>();
 #else
 	FPAIR(8, 4, 8, 2) FPAIR(8, 4, 12, 8) FPAIR(8, 0, 16, 8) FPAIR(10, 5, 6, 2) FPAIR(12, 6, 8, 6) FPAIR(16, 8, 32, 16) FPAIR(16, 12, 16, 4) FPAIR(24, 12, 12, 4)
+	LPAIR(8, 2, 8, 4) LPAIR(8, 3, 12, 5) LPAIR(10, 4, 8, 2) LPAIR(12, 6, 16, 8) LPAIR(16, 5, 9, 5) reg<LL<8, 3, 8, 3, Behavior::Saturating>>();
 	IPAIR(8, 12) IPAIR(8, 16) IPAIR(9, 7) IPAIR(12, 33) IPAIR(16, 32) IPAIR(24, 17) IPAIR(32, 64) IPAIR(65, 31) IPAIR(12, 4)
 	// other block types, sizes that do not fill their top block
 	IPAIRB(8, 16, uint16_t) IPAIRB(12, 40, uint16_t) IPAIRB(16, 32, uint32_t) IPAIRB(33, 64, uint32_t) IPAIRB(20, 72, uint32_t) IPAIRB(24, 64, uint64_t) IPAIRB(40, 128, uint64_t) IPAIRB(5, 8, uint8_t) IPAIRB(7, 9, uint16_t)
